@@ -124,7 +124,9 @@ func isWordTok(t *kvql.Token) bool {
 	return true
 }
 
-const c16Alphabet = "a1. '\"`=!<>^~&|()[],;+-*/"
+// tab and line end: their treatment is not documented (the reference
+// tokeniser abstains), but the token-truth invariants hold for them too
+const c16Alphabet = "a1. '\"`=!<>^~&|()[],;+-*/\t\n"
 
 func c16Nontrivial(q string) bool {
 	// a two-character operator, or a quoted literal adjacent to another token
